@@ -29,13 +29,29 @@
 EXTENDS Naturals, Integers, Sequences, FiniteSets, SequencesExt, KzgSets
 
 CONSTANT Mutation   \* "none", or the name of a deliberate model mutation
+CONSTANT AdversaryOn \* TRUE: one adversarial edit between proving and verifying (C03)
 
-VARIABLES sh, progP, progV, pcP, pcV, absP, absV, chan, verdict
-vars == <<sh, progP, progV, pcP, pcV, absP, absV, chan, verdict>>
+VARIABLES sh, progP, progV, pcP, pcV, absP, absV, chan, verdict, tamper
+vars == <<sh, progP, progV, pcP, pcV, absP, absV, chan, verdict, tamper>>
+
+NoTamper == <<"none">>
 
 Msg(op, kind, tag) == [op |-> op, kind |-> kind, tag |-> tag]
 Common(kind, tag)  == Msg("common", kind, tag)
 Squeeze(tag)       == Msg("squeeze", "challenge", tag)
+
+\* Public-input values, committed-instance commitments and the key identity as
+\* VALUES (what is hashed carries no position).  A shape may give them
+\* explicitly (plainv / comv / vkid); otherwise fresh distinct ids are used.
+Vals(s, p, j) ==
+  IF "plainv" \in DOMAIN s THEN s.plainv[p][j]
+  ELSE [i \in 1..s.plain[p][j] |-> 1000 * p + 100 * j + i]
+ComId(s, p, c) == IF "comv" \in DOMAIN s THEN s.comv[p][c] ELSE 100 * p + c
+VkId(s) == IF "vkid" \in DOMAIN s THEN s.vkid ELSE 1
+PlainCols(s, p) == IF "plainv" \in DOMAIN s THEN Len(s.plainv[p]) ELSE Len(s.plain[p])
+InstVals(s, p, j) ==
+  LET vs == Vals(s, p, j) IN [i \in 1..Len(vs) |-> Common("scalar", <<"val", vs[i]>>)]
+InstLen(s, p, j) == Common("scalar", <<"len", Len(Vals(s, p, j))>>)
 
 NSets(s) == (s.permcols + s.chunk - 1) \div s.chunk
 LastRot(s) == -(s.blinding + 1)
@@ -47,13 +63,13 @@ CommittedInstQ(s) == SelectSeq(s.instq, LAMBDA q : q[1] < s.committed)
 (* and its values.                                                         *)
 InstancesV(s) ==
   FlattenSeq([p \in 1..s.nproofs |->
-     [c \in 1..s.committed |-> Common("point", <<"instcom", p, c>>)]])
+     [c \in 1..s.committed |-> Common("point", <<"instcom", ComId(s, p, c)>>)]])
   \o
   FlattenSeq([p \in 1..s.nproofs |->
-     FlattenSeq([j \in 1..Len(s.plain[p]) |->
-        (IF Mutation = "verifier_skips_length" THEN <<>>
-         ELSE <<Common("scalar", <<"len", p, j>>)>>)
-        \o [i \in 1..s.plain[p][j] |-> Common("scalar", <<"inst", p, j, i>>)]])])
+     FlattenSeq([j \in 1..PlainCols(s, p) |->
+        (IF Mutation \in {"verifier_skips_length", "nobody_absorbs_length"} THEN <<>>
+         ELSE <<InstLen(s, p, j)>>)
+        \o InstVals(s, p, j)])])
 
 (* Prover (prover.rs::compute_instances).  The pinned tree interleaved per *)
 (* proof (commitments of proof p, then plain columns of proof p): kept as  *)
@@ -62,18 +78,17 @@ InstancesV(s) ==
 InstancesP(s) ==
   IF Mutation = "legacy_instance_order"
   THEN FlattenSeq([p \in 1..s.nproofs |->
-         [c \in 1..s.committed |-> Common("point", <<"instcom", p, c>>)]
-         \o FlattenSeq([j \in 1..Len(s.plain[p]) |->
-              <<Common("scalar", <<"len", p, j>>)>>
-              \o [i \in 1..s.plain[p][j] |-> Common("scalar", <<"inst", p, j, i>>)]])])
+         [c \in 1..s.committed |-> Common("point", <<"instcom", ComId(s, p, c)>>)]
+         \o FlattenSeq([j \in 1..PlainCols(s, p) |->
+              <<InstLen(s, p, j)>> \o InstVals(s, p, j)])])
   ELSE
   FlattenSeq([p \in 1..s.nproofs |->
-     [c \in 1..s.committed |-> Common("point", <<"instcom", p, c>>)]])
+     [c \in 1..s.committed |-> Common("point", <<"instcom", ComId(s, p, c)>>)]])
   \o
   FlattenSeq([p \in 1..s.nproofs |->
-     FlattenSeq([j \in 1..Len(s.plain[p]) |->
-        <<Common("scalar", <<"len", p, j>>)>>
-        \o [i \in 1..s.plain[p][j] |-> Common("scalar", <<"inst", p, j, i>>)]])])
+     FlattenSeq([j \in 1..PlainCols(s, p) |->
+        (IF Mutation = "nobody_absorbs_length" THEN <<>> ELSE <<InstLen(s, p, j)>>)
+        \o InstVals(s, p, j)])])
 
 (* Everything between the instances and the multi-opening is the same      *)
 (* schedule on both sides with write <-> read; `w` is that operation.      *)
@@ -173,7 +188,7 @@ MultiOpen(w, qs) ==
 
 ---------------------------------------------------------------------------
 ProverProgram(s) ==
-  << Common("scalar", <<"vk">>) >>
+  << Common("scalar", <<"vk", VkId(s)>>) >>
   \o InstancesP(s)
   \o AdvicePhases(s, "write")
   \o << Squeeze(<<"theta">>) >>
@@ -191,7 +206,7 @@ ProverProgram(s) ==
   \o MultiOpen("write", ProverQueries(s))
 
 VerifierProgram(s) ==
-  << Common("scalar", <<"vk">>) >>
+  << Common("scalar", <<"vk", VkId(s)>>) >>
   \o InstancesV(s)
   \o AdvicePhases(s, "read")
   \o << Squeeze(<<"theta">>) >>
@@ -215,7 +230,7 @@ VerifierProgram(s) ==
 PAct(op, kind, val) ==
   /\ absP' = Append(absP, val)
   /\ chan' = IF op = "write" THEN Append(chan, [kind |-> kind, val |-> val]) ELSE chan
-  /\ UNCHANGED <<absV, verdict>>
+  /\ UNCHANGED <<absV, verdict, tamper>>
 
 \* a read is enabled only if the next proof element exists and decodes as `kind`
 ReadOk(kind) == chan # <<>> /\ Head(chan).kind = kind
@@ -227,7 +242,7 @@ VAct(op, kind, val) ==
           /\ chan' = Tail(chan)
      ELSE chan' = chan
   /\ absV' = Append(absV, val)
-  /\ UNCHANGED <<absP, verdict>>
+  /\ UNCHANGED <<absP, verdict, tamper>>
 
 PDone == verdict # "setup" /\ pcP > Len(progP)
 VDone == verdict # "setup" /\ pcV > Len(progV)
@@ -243,7 +258,7 @@ VStep ==
   /\ LET o == progV[pcV] IN
        IF o.op = "read" /\ ~ReadOk(o.kind)
        THEN /\ verdict' = "err"          \* decode error / proof exhausted
-            /\ UNCHANGED <<absP, absV, chan, pcV>>
+            /\ UNCHANGED <<absP, absV, chan, pcV, tamper>>
        ELSE /\ VAct(o.op, o.kind, IF o.op = "read" THEN Head(chan).val ELSE o.tag)
             /\ pcV' = pcV + 1
   /\ UNCHANGED <<sh, progP, progV, pcP>>
@@ -252,7 +267,7 @@ VStep ==
 Finish ==
   /\ PDone /\ VDone /\ verdict = "none"
   /\ verdict' = IF chan = <<>> /\ absP = absV THEN "ok" ELSE "err"
-  /\ UNCHANGED <<sh, progP, progV, pcP, pcV, absP, absV, chan>>
+  /\ UNCHANGED <<sh, progP, progV, pcP, pcV, absP, absV, chan, tamper>>
 
 \* A run starts with the shape only; `Setup` derives the two programs from it
 \* (key generation fixes the constraint system before anything is absorbed).
@@ -262,26 +277,87 @@ InitWith(s) ==
   /\ pcP = 1 /\ pcV = 1
   /\ absP = <<>> /\ absV = <<>> /\ chan = <<>>
   /\ verdict = "setup"
+  /\ tamper = NoTamper
 
 Setup ==
   /\ verdict = "setup"
   /\ progP' = ProverProgram(sh)
   /\ progV' = VerifierProgram(sh)
   /\ verdict' = "none"
-  /\ UNCHANGED <<sh, pcP, pcV, absP, absV, chan>>
+  /\ UNCHANGED <<sh, pcP, pcV, absP, absV, chan, tamper>>
 
-Next == Setup \/ PStep \/ VStep \/ Finish
+---------------------------------------------------------------------------
+(* C03: one adversarial edit between proving and verifying.  Either the    *)
+(* proof bytes change (an element is replaced by another well-formed value *)
+(* or by something that does not decode, the proof is truncated or         *)
+(* extended), or the verifier is given another statement or key.           *)
+SeqRemoveLast(q) == SubSeq(q, 1, Len(q) - 1)
+EditCol(s, p, j, col) == [s EXCEPT !.plainv[p][j] = col]
+StatementEdits(s) ==
+  IF "plainv" \notin DOMAIN s THEN {} ELSE
+  LET cells == {<<p, j>> : p \in 1..s.nproofs, j \in 1..Len(s.plainv[1])} IN
+  { [name |-> <<"change", c[1], c[2]>>,
+     sh |-> EditCol(s, c[1], c[2], [s.plainv[c[1]][c[2]] EXCEPT ![1] = 9999])] :
+       c \in {d \in cells : Len(s.plainv[d[1]][d[2]]) >= 1} }
+  \cup
+  { [name |-> <<"swap", c[1], c[2]>>,
+     sh |-> EditCol(s, c[1], c[2],
+              [s.plainv[c[1]][c[2]] EXCEPT ![1] = s.plainv[c[1]][c[2]][2],
+                                            ![2] = s.plainv[c[1]][c[2]][1]])] :
+       c \in {d \in cells : Len(s.plainv[d[1]][d[2]]) >= 2} }
+  \cup
+  { [name |-> <<"drop_last", c[1], c[2]>>,
+     sh |-> EditCol(s, c[1], c[2], SeqRemoveLast(s.plainv[c[1]][c[2]]))] :
+       c \in {d \in cells : Len(s.plainv[d[1]][d[2]]) >= 1} }
+  \cup
+  { [name |-> <<"append_zero", c[1], c[2]>>,
+     sh |-> EditCol(s, c[1], c[2], Append(s.plainv[c[1]][c[2]], 0))] : c \in cells }
+  \cup
+  \* move the last value of a column to the front of the next one: the flat
+  \* sequence of values is unchanged, only the lengths tell the difference
+  { [name |-> <<"move", c[1], c[2]>>,
+     sh |-> [s EXCEPT !.plainv[c[1]][c[2]] = SeqRemoveLast(@),
+                      !.plainv[c[1]][c[2] + 1] =
+                         <<s.plainv[c[1]][c[2]][Len(s.plainv[c[1]][c[2]])]>> \o @]] :
+       c \in {d \in cells : d[2] < Len(s.plainv[1]) /\ Len(s.plainv[d[1]][d[2]]) >= 1} }
+  \cup
+  { [name |-> <<"committed", p, c>>, sh |-> [s EXCEPT !.comv[p][c] = 7777]] :
+       p \in 1..s.nproofs, c \in 1..s.committed }
+  \cup
+  { [name |-> <<"key">>, sh |-> [s EXCEPT !.vkid = 2]] }
+
+Adversary ==
+  /\ AdversaryOn /\ PDone /\ pcV = 1 /\ verdict = "none" /\ tamper = NoTamper
+  /\ \/ \E i \in 1..Len(chan) :
+          /\ chan' = [chan EXCEPT ![i].val = <<"forged">>]
+          /\ tamper' = <<"elem", i>> /\ progV' = progV
+     \/ \E i \in 1..Len(chan) :
+          /\ chan' = [chan EXCEPT ![i].kind = "undecodable"]
+          /\ tamper' = <<"invalid", i>> /\ progV' = progV
+     \/ \E n \in 0..(Len(chan) - 1) :
+          /\ chan' = SubSeq(chan, 1, n)
+          /\ tamper' = <<"trunc", n>> /\ progV' = progV
+     \/ /\ chan' = Append(chan, [kind |-> "scalar", val |-> <<"extra">>])
+        /\ tamper' = <<"append">> /\ progV' = progV
+     \/ \E e \in StatementEdits(sh) :
+          /\ progV' = VerifierProgram(e.sh)
+          /\ tamper' = e.name /\ chan' = chan
+  /\ UNCHANGED <<sh, progP, pcP, pcV, absP, absV, verdict>>
+
+Next == Setup \/ PStep \/ Adversary \/ VStep \/ Finish
 
 ---------------------------------------------------------------------------
 (* Properties                                                              *)
 
 \* C01 (model level): the honest run of every shape is accepted.
-Completeness == verdict # "err"
-Agreement == (PDone /\ VDone) => (absP = absV /\ chan = <<>>)
+Completeness == (tamper = NoTamper) => verdict # "err"
+\* C03 (model level): after any single edit the verifier does not accept.
+Binding == (tamper # NoTamper) => verdict # "ok"
+Agreement == (PDone /\ VDone /\ tamper = NoTamper) => (absP = absV /\ chan = <<>>)
 
 \* The verifier never reads an element as the wrong kind.
 StreamTyped ==
-  (PDone /\ ~VDone /\ progV[pcV].op = "read") => ReadOk(progV[pcV].kind)
+  (PDone /\ ~VDone /\ tamper = NoTamper /\ progV[pcV].op = "read") => ReadOk(progV[pcV].kind)
 
 \* C03 (reason): every absorbed element is followed by a challenge that enters
 \* the final equation, except the opening proof pi which enters the pairing.
@@ -294,14 +370,14 @@ EveryElementBound ==
 
 \* every plain instance column's length and every value is absorbed
 LengthBound ==
-  \A p \in 1..sh.nproofs : \A j \in 1..Len(sh.plain[p]) :
-     /\ \E i \in 1..Len(progV) : progV[i] = Common("scalar", <<"len", p, j>>)
-     /\ \A v \in 1..sh.plain[p][j] :
-          \E i \in 1..Len(progV) : progV[i] = Common("scalar", <<"inst", p, j, v>>)
+  \A p \in 1..sh.nproofs : \A j \in 1..PlainCols(sh, p) :
+     /\ \E i \in 1..Len(progV) : progV[i] = InstLen(sh, p, j)
+     /\ \A v \in 1..Len(Vals(sh, p, j)) :
+          \E i \in 1..Len(progV) : progV[i] = Common("scalar", <<"val", Vals(sh, p, j)[v]>>)
 
 \* the verifying key is the first thing absorbed on both sides
 KeyBound ==
-  verdict = "setup" \/ (progP[1] = Common("scalar", <<"vk">>) /\ progV[1] = Common("scalar", <<"vk">>))
+  verdict = "setup" \/ (progP[1] = Common("scalar", <<"vk", VkId(sh)>>) /\ progV[1] = Common("scalar", <<"vk", VkId(sh)>>))
 
 \* both sides hand the same query structure to the multi-opening
 SameQueryStructure == NumPointSets(ProverQueries(sh)) = NumPointSets(VerifierQueries(sh))
